@@ -50,6 +50,8 @@ impl Cfg {
                 "seeded"
             } else if v["shape"] == "phased" {
                 "phased"
+            } else if v["shape"] == "phased_post" {
+                "phased_post"
             } else {
                 "concurrent"
             },
@@ -140,7 +142,7 @@ pub fn run_raft(rs: &RaftSim, cfg: Cfg, ch: &mut Chooser) -> Exec {
     let rec: Rec<Histories> = Rec::new();
     let (end, overflow) = run_with_chooser(&rs.sim, ch, MAX_POINTS, async || {
         let mut sent = 0;
-        if cfg.shape == "phased" {
+        if cfg.shape == "phased" || cfg.shape == "phased_post" {
             let mut h: Histories = vec![vec![]; N];
             // quiesce (phase barrier) and fold every member's newly committed entries into its history
             let collect = async |h: &mut Histories| {
@@ -170,6 +172,20 @@ pub fn run_raft(rs: &RaftSim, cfg: Cfg, ch: &mut Chooser) -> Exec {
                 rs.heartbeat.send(0, ());
                 collect(&mut h).await;
                 for _ in 0..cfg.pumps {
+                    for member in 0..N as u32 {
+                        rs.heartbeat.send(member, ());
+                    }
+                    collect(&mut h).await;
+                }
+                if cfg.shape == "phased_post" {
+                    // whoever leads now: one more request for the challenger and for member 0,
+                    // replicated by one heartbeat round (a deposed leader just redirects)
+                    rs.request.send(challenger, format!("post-challenger-{round}"));
+                    rs.request.send(0, format!("post-zero-{round}"));
+                    for member in 0..N as u32 {
+                        rs.heartbeat.send(member, ());
+                    }
+                    collect(&mut h).await;
                     for member in 0..N as u32 {
                         rs.heartbeat.send(member, ());
                     }
@@ -459,9 +475,20 @@ pub fn run(rep: &mut Report, thorough: bool, replay: Option<Value>) {
         std::process::exit(code);
     }
 
-    let cfgs = configs(thorough);
+    let mut cfgs = configs(thorough);
+    if let Ok(spec) = std::env::var("VF_C40_CFGS") {
+        // experimentation only: "shape:elections:requests:pumps:bound,..."
+        cfgs = spec
+            .split(',')
+            .map(|c| {
+                let f: Vec<&str> = c.split(':').collect();
+                let shape = Cfg::from_json(&json!({"shape": f[0]})).shape;
+                (Cfg { proto: "raft", shape, elections: f[1].parse().unwrap(), requests: f[2].parse().unwrap(), pumps: f[3].parse().unwrap() }, f[4].parse().unwrap())
+            })
+            .collect();
+    }
     rep.bound("deviation_bound_per_config", json!(cfgs.iter().map(|(c, b)| json!([c.key(), bound_override.unwrap_or(*b)])).collect::<Vec<_>>()));
-    let wall_per_cfg: u64 = if thorough { 150 } else { 30 };
+    let wall_per_cfg: u64 = std::env::var("VF_C40_WALL").ok().and_then(|s| s.parse().ok()).unwrap_or(if thorough { 150 } else { 60 });
     rep.bound("wall_cap_s_per_config", wall_per_cfg);
     let nshards = if thorough { vf_explore::ncpu().clamp(1, 12) } else { 1 };
     for (cfg, bound) in cfgs {
